@@ -10,8 +10,31 @@
 #include <unistd.h>
 #include <vector>
 static std::vector<unsigned char> slurp(const char *p) { std::vector<unsigned char> v; FILE *f = fopen(p, "rb"); if (!f) return v; unsigned char buf[65536]; size_t n; while ((n = fread(buf, 1, sizeof buf, f)) > 0) v.insert(v.end(), buf, buf + n); fclose(f); return v; }
+// usage: pipeline_replay streams <T> <cmode>
+//   C18: encrypts T equal 16 MiB chunks (all bytes 0x5A) with T streams and compares the ciphertext chunks of stream 0 and stream i;
+//   prints RESULT ... equal_chunks=<n>; exit 1 if any two streams produced the same ciphertext chunk in a non-ECB mode
+static int streams(int T, int cm)
+{
+  char dir[] = "/tmp/wvreplayXXXXXX"; if (!mkdtemp(dir)) return 2; if (chdir(dir)) return 2;
+  const size_t CH = 16u << 20; size_t len = CH * T;
+  { FILE *f = fopen("plain", "wb"); std::vector<unsigned char> b(CH, 0x5A); for (int i = 0; i < T; ++i) fwrite(b.data(), 1, CH, f); fclose(f); }
+  unsigned char key[16]; for (int i = 0; i < 16; ++i) key[i] = 0xA0 + i;
+  unsigned char seed[32] = "wv-replay-seed";
+  { FILE *fin = fopen("plain", "rb"), *fout = fopen("cipher", "wb+"); Settings s(cm, 0, true); runcrypt r(fin, fout, key, s, T); r.execute_encrypt(len, seed); }
+  std::vector<unsigned char> c = slurp("cipher");
+  unlink("plain"); unlink("cipher"); rmdir(dir);
+  size_t body = 48 + 20 * (size_t)T; int equal = 0, same_iv = 0;
+  if (c.size() < body + len) return 2;
+  for (int i = 1; i < T; ++i) {
+    if (memcmp(&c[body], &c[body + CH * i], CH) == 0) ++equal;
+    if (memcmp(&c[48], &c[48 + 20 * i], 16) == 0) ++same_iv;
+  }
+  printf("\nRESULT streams T=%d cmode=%d equal_chunks=%d (ciphertext chunk of stream i equals that of stream 0 for equal plaintext chunks) header_ivs_equal=%d\n", T, cm, equal, same_iv);
+  return (cm != 0 && equal > 0) ? 1 : 0;
+}
 int main(int argc, char **argv)
 {
+  if (argc >= 4 && !strcmp(argv[1], "streams")) return streams(atoi(argv[2]), atoi(argv[3]));
   if (argc < 6) return 2;
   size_t len = strtoull(argv[2], 0, 10); int T = atoi(argv[3]), cm = atoi(argv[4]), hm = atoi(argv[5]);
   char dir[] = "/tmp/wvreplayXXXXXX"; if (!mkdtemp(dir)) return 2; if (chdir(dir)) return 2;
